@@ -62,6 +62,7 @@ type World struct {
 	members  map[uint64]bool
 	scenario string
 	healthyLeader, healthyTerm uint64
+	maxSpread int // largest difference between the member sets of two running nodes seen so far
 }
 
 func (w *World) note(format string, a ...interface{}) {
@@ -71,6 +72,13 @@ func (w *World) note(format string, a ...interface{}) {
 func (w *World) tick() int { w.seq++; return w.seq }
 
 func (w *World) violate(prop, oracle, detail string, sig map[string]string) {
+	// Safety under membership changes is C09's statement; C01-C04 and C07 quantify over static membership.
+	if sig != nil && sig["membership"] == "changing" && (prop == "C01" || prop == "C02" || prop == "C03" || prop == "C04" || prop == "C07") {
+		prop = "C09"
+		if w.maxSpread >= 2 {
+			sig["pattern"] = "configs-two-apart"
+		}
+	}
 	key := prop + "|" + oracle
 	if w.violated[key] {
 		return
@@ -164,7 +172,39 @@ func (w *World) submit(kind string, node uint64, target uint64, voter bool) {
 
 // ---------------------------------------------------------------- oracles evaluated after every action
 
+func (w *World) trackSpread() {
+	ids := w.S.IDs()
+	cfgs := make([]raft.Configuration, len(ids))
+	for i, id := range ids {
+		cfgs[i] = w.S.Nodes[id].R.Configuration()
+	}
+	for i := range cfgs {
+		for j := i + 1; j < len(cfgs); j++ {
+			if len(cfgs[i].Members) == 0 || len(cfgs[j].Members) == 0 {
+				continue
+			}
+			d := 0
+			for m := range cfgs[i].Members {
+				if _, ok := cfgs[j].Members[m]; !ok || cfgs[i].IsVoter[m] != cfgs[j].IsVoter[m] {
+					d++
+				}
+			}
+			for m := range cfgs[j].Members {
+				if _, ok := cfgs[i].Members[m]; !ok {
+					d++
+				}
+			}
+			if d > w.maxSpread {
+				w.maxSpread = d
+			}
+		}
+	}
+}
+
 func (w *World) observe() {
+	if w.prof == "churn" {
+		w.trackSpread()
+	}
 	for _, e := range w.S.Errors {
 		w.violate("C18", "a handler panicked", e, map[string]string{"oracle": "handler-panic"})
 	}
@@ -636,6 +676,9 @@ func runWalk(t *testing.T, rep *Report, prof profile, seed uint64, walk int, act
 					w.crashed[id] = s.Crash(id)
 				}
 			case pick(prof.pMember):
+				if len(s.IDs()) == 0 {
+					break
+				}
 				lead := s.Leader()
 				if lead == 0 {
 					lead = w.pickNode()
@@ -688,6 +731,7 @@ func runWalk(t *testing.T, rep *Report, prof profile, seed uint64, walk int, act
 		w.observe()
 		w.checkSnapshots()
 		rep.Case(w.walkID, len(w.Ops) > 0)
+		rep.Evaluations += len(w.Trace) // scheduler actions executed and checked by the oracles
 		rep.Hit("walk:" + prof.name)
 		rep.Hit(fmt.Sprintf("nodes:%d", nn))
 		s.StopAll()
@@ -754,9 +798,49 @@ func (w *World) restart(id uint64, img string) (err error) {
 }
 
 // quiet: fault-free period; then one leader, a fresh operation completes, everyone catches up.
+// settled: under membership churn the liveness oracles only apply when the running nodes agree
+// on the configuration and a majority of its voters is running (the walk may have added a
+// voter that never existed, or removed the nodes that hold the log).
+func (w *World) settled() bool {
+	if w.prof != "churn" {
+		return true
+	}
+	var ref string
+	for i, id := range w.S.IDs() {
+		c := w.S.Nodes[id].R.Configuration()
+		cs := CfgFromRaft(&c).String()
+		cs = cs[strings.Index(cs+"/", "/"):]
+		if i == 0 {
+			ref = cs
+		} else if cs != ref {
+			return false
+		}
+		voters, up := 0, 0
+		for m, v := range c.IsVoter {
+			if v {
+				voters++
+				if w.S.Nodes[IDNum(m)] != nil {
+					up++
+				}
+			}
+		}
+		if 2*up <= voters {
+			return false
+		}
+	}
+	return true
+}
+
 func (w *World) quiet() {
 	s := w.S
 	et := s.Opts.ET
+	if !w.settled() {
+		s.Run(6*et, 5*time.Millisecond, nil)
+		if !w.settled() {
+			w.rep.Hit("quiet-skipped-unsettled-membership")
+			return
+		}
+	}
 	ok := s.Run(12*et, 5*time.Millisecond, func() bool { return s.Leader() != 0 && w.allCaughtUp() })
 	lead := s.Leader()
 	if lead == 0 {
